@@ -279,6 +279,7 @@ def shape_rules(ctx, rid, core, G, scope_fns):
         short = name.replace(CORE, "")
         bad = []
         unk = False
+        names_ = {w[1] for w in SKEL[variant] if isinstance(w, tuple)} | {"<value>"}
         for alt in alts:
             flat = Y.flatten(alt)
             if any(x[0] == "unk" for x in flat):
@@ -286,13 +287,18 @@ def shape_rules(ctx, rid, core, G, scope_fns):
                 continue
             ok, why = match_skeleton(flat, SKEL[variant], ren)
             if not ok:
+                # a mismatch counts only when the output is made of this construct's own parts: text that comes from something else
+                # (a pre-rendered child handed in as a String parameter, a helper's own locals) means the representation was not understood
+                foreign = [x for x in strip_layout(flat) if x[0] in ("child", "ident", "rewritten", "loop", "opt") and x[1] and ren.get(x[1][0], x[1][0]) not in names_]
+                if foreign:
+                    unk = True
+                    continue
                 bad.append(why)
         n += 1
         if bad:
             ctx.inst(rid, "%s[%s]#shape" % (short, variant), False, "%d of %d output paths do not follow the grammar's shape for %s: %s" % (len(bad), len(alts), variant, sorted(set(bad))[:3]), loc)
         else:
-            all_unk = bool(alts) and all(any(x[0] == "unk" for x in Y.flatten(alt)) for alt in alts)
-            ctx.inst(rid, "%s[%s]#shape" % (short, variant), None if ((unk and not alts) or all_unk) else True, "%d output path(s) follow %s%s" % (len(alts), SKEL[variant], " (some paths contain opaque pieces)" if unk else ""), loc)
+            ctx.inst(rid, "%s[%s]#shape" % (short, variant), None if unk else True, "%d output path(s) follow %s%s" % (len(alts), SKEL[variant], " (some paths contain opaque pieces)" if unk else ""), loc)
         # line-break gaps
         viol = set()
         for alt in alts:
@@ -340,8 +346,11 @@ def shape_rules(ctx, rid, core, G, scope_fns):
                         # with a captured value the shorthand is expanded to `name: <value>`
                         ok, why = match_skeleton(flat, [I("name"), ":", C("<value>")], {})
                     if not ok:
+                        names_k = {w[1] for w in SKEL_KEY[vs[0]] if isinstance(w, tuple)} | {"<value>", "name", "key", "entry"}
+                        if [x for x in strip_layout(flat) if x[0] in ("child", "ident", "rewritten", "loop", "opt") and x[1] and x[1][0] not in names_k]:
+                            continue  # text from something that is not part of the entry: representation not understood
                         bad.append(why)
-                all_unk = bool(alts) and all(any(x[0] == "unk" for x in Y.flatten(alt)) for alt in alts)
+                all_unk = bool(alts) and not bad and all(any(x[0] == "unk" for x in Y.flatten(alt)) or not match_skeleton(Y.flatten(alt), SKEL_KEY[vs[0]], {})[0] for alt in alts)
                 ctx.inst(rid, "%s[RecordKey::%s]#shape" % (name.replace(CORE, ""), vs[0]), None if all_unk else (not bad), "record entry printed as %s: %s" % (SKEL_KEY[vs[0]], "not modelled" if all_unk else (sorted(set(bad))[:2] if bad else "ok")), H.loc(a["body"]))
     ctx.units["printer_arms_interpreted"] = n
 
